@@ -79,7 +79,11 @@ def analyse(fn):
     return before, fin, after, guards[0]
 
 
+REPO_FOR_FLAGS = ["/repo"]
+
+
 def generate(repo="/repo"):
+    REPO_FOR_FLAGS[0] = repo
     sections = []
     for rel in FILES:
         path = os.path.join(repo, rel)
@@ -96,6 +100,55 @@ def generate(repo="/repo"):
     return sections
 
 
+FLAGS = ["_filesystem_fsync"]
+
+
+def flag_writes(repo="/repo"):
+    """every place in radicale/ (tests aside) that writes a storage-wide durability flag: (file, enclosing function, attribute);
+    and every call of `.verify(` from the request-serving code (radicale/app, radicale/server.py, radicale/__init__.py)"""
+    out, verify_calls = [], []
+    base = os.path.join(repo, "radicale")
+    for root, dirs, files in os.walk(base):
+        dirs[:] = [d for d in dirs if d != "tests"]
+        for fn in sorted(files):
+            if not fn.endswith(".py"):
+                continue
+            path = os.path.join(root, fn)
+            rel = os.path.relpath(path, repo)
+            try:
+                tree = ast.parse(open(path, encoding="utf-8").read())
+            except SyntaxError:
+                continue
+            funcs = [n for n in ast.walk(tree) if isinstance(n, (ast.FunctionDef, ast.AsyncFunctionDef))]
+
+            def enclosing(node):
+                best = None
+                for f in funcs:
+                    if f.lineno <= node.lineno <= getattr(f, "end_lineno", f.lineno):
+                        if best is None or f.lineno >= best.lineno:
+                            best = f
+                return best.name if best else "<module>"
+            for n in ast.walk(tree):
+                targets = []
+                if isinstance(n, ast.Assign):
+                    targets = n.targets
+                elif isinstance(n, (ast.AugAssign, ast.AnnAssign)) and getattr(n, "value", None) is not None:
+                    targets = [n.target]
+                elif isinstance(n, ast.Delete):
+                    targets = n.targets
+                for t in targets:
+                    for e in (t.elts if isinstance(t, ast.Tuple) else [t]):
+                        if isinstance(e, ast.Attribute) and e.attr in FLAGS:
+                            out.append((rel, enclosing(n), e.attr))
+                if isinstance(n, ast.Call) and isinstance(n.func, ast.Name) and n.func.id == "setattr" and len(n.args) >= 2 and \
+                        isinstance(n.args[1], ast.Constant) and n.args[1].value in FLAGS:
+                    out.append((rel, enclosing(n), n.args[1].value))
+                if isinstance(n, ast.Call) and isinstance(n.func, ast.Attribute) and n.func.attr == "verify" and \
+                        (rel.startswith("radicale/app/") or rel in ("radicale/server.py", "radicale/__init__.py")):
+                    verify_calls.append((rel, enclosing(n)))
+    return sorted(set(out)), sorted(set(verify_calls))
+
+
 def write_lean(sections, path):
     def lst(xs):
         return "[" + ", ".join('"%s"' % x for x in xs) + "]"
@@ -105,7 +158,13 @@ def write_lean(sections, path):
              "def lockSections : List Section := ["]
     lines.append(",\n".join('  { name := "%s", setBefore := %s, resetFinally := %s, resetAfter := %s, withGuards := %d }'
                             % (s["name"], lst(s["setBefore"]), lst(s["resetFinally"]), lst(s["resetAfter"]), s["withGuards"]) for s in sections))
-    lines += ["]", "", "end Generated"]
+    lines += ["]", ""]
+    fw, vc = flag_writes(REPO_FOR_FLAGS[0])
+    lines.append("/-- every write of a storage-wide durability flag outside the tests: (file, enclosing function, attribute) -/")
+    lines.append("def flagWrites : List (String × String × String) := [%s]" % ", ".join('("%s", "%s", "%s")' % w for w in fw))
+    lines.append("/-- calls of `.verify(` from the request-serving code: (file, enclosing function) -/")
+    lines.append("def verifyCallsFromServer : List (String × String) := [%s]" % ", ".join('("%s", "%s")' % w for w in vc))
+    lines += ["", "end Generated"]
     text = "\n".join(lines) + "\n"
     os.makedirs(os.path.dirname(path), exist_ok=True)
     old = open(path).read() if os.path.exists(path) else None
